@@ -51,7 +51,7 @@ def cases(tier, rng):
         yield {"k": rng.choice([1901, 1902]), "args": [ds, nets.topo_order(ds, rng), [hm], mask, [rng.choice([0, 0, 1, 2, 3, 5, 8])]], "group": "rand-kernel"}
         yield {"k": 1903, "args": [ds, [], [hm], mask], "group": "rand-tuples"}
     for t in range(60 if tier == "quick" else 600):
-        nr, nc = rng.randint(2, 7), rng.randint(2, 7)
+        nr, nc = nets.rshape(rng, 2, 7)
         flw = nets.random_d8_raster(rng, nr, nc, p_nodata=rng.choice([0, 0.15]))
         ds = nets.d8_decode(flw, nr, nc)
         if not nets.pits(ds):
